@@ -51,7 +51,8 @@ JudgeSet(e) ==
     THEN J(<<"SetExons " \o (IF e.err = "" THEN "accepted" ELSE "rejected (" \o e.err \o ")") \o
              " where the specification says " \o (IF c = "" THEN "accepted" ELSE c)>>, <<>>)
   ELSE IF c = ""
-    THEN J(Fail(e.after = Sorted(e.xs), "accepted SetExons does not hold the sorted arguments"),
+    THEN J(Fail(e.after = Sorted(e.xs), "accepted SetExons does not hold the sorted arguments")
+           \o Fail(e.scribbled = e.after, "the exon set held after an accepted SetExons changes when the caller overwrites its own argument slice (shared storage)"),
            Fail(e.xsafter = e.xs, "SetExons modified its argument slice"))
     ELSE J(Fail(e.after = e.before, "rejected SetExons (" \o e.err \o ") changed the previous exon set"),
            Fail(e.err = c \/ e.err \in BuildClasses(e.xs), "SetExons error is '" \o e.err \o "', specification: '" \o c \o "'") \o
